@@ -151,7 +151,7 @@ func c11(args []string) error {
 		os.WriteFile(in, []byte(fa.String()), 0644)
 		seed := r.Int63n(1 << 40)
 		t2 := []int{2, 3, 8, 16}[r.Intn(4)]
-		switch kind := r.Intn(10); {
+		switch kind := r.Intn(12); {
 		case kind < 5: // the same command twice, different thread counts
 			t := tmpls[r.Intn(len(tmpls))]
 			mk := func(threads int) []string {
@@ -211,6 +211,24 @@ func c11(args []string) error {
 			emit(1, "build seqboot", names, seqs, rawTape(seed, 40+n*(L+nseq+4)), n, frac, shuffle, f1, f2, rc1, rc2,
 				map[string]interface{}{"op": "seqboot", "n": n, "frac": frac.f(), "shuffle": shuffle, "threads": t2, "rseed": seed, "names": names, "seqs": seqs})
 			stats["seqboot"]++
+		case kind >= 10: // reformat phylip / fasta: stdout predicted by the writer models
+			if kind == 10 {
+				v := r.Intn(4)
+				a := []string{"reformat", "phylip", "-i", in}
+				a = append(a, [][]string{{}, {"--one-line"}, {"--no-block"}, {"--output-strict"}}[v]...)
+				o1 := runCLI(bin, dir, append(a, "-t", "1")...)
+				o2 := runCLI(bin, dir, append(a, "-t", fmt.Sprint(t2))...)
+				emit(4, "reformat phylip", names, seqs, nil, v, dyadic{1, 1}, false, []string{o1.stdout}, []string{o2.stdout}, o1.rc, o2.rc,
+					map[string]interface{}{"op": "reformat-phylip-model", "variant": v, "names": names, "seqs": seqs})
+				stats["reformat-phylip-model"]++
+			} else {
+				a := []string{"reformat", "fasta", "-i", in}
+				o1 := runCLI(bin, dir, append(a, "-t", "1")...)
+				o2 := runCLI(bin, dir, append(a, "-t", fmt.Sprint(t2))...)
+				emit(5, "reformat fasta", names, seqs, nil, 0, dyadic{1, 1}, false, []string{o1.stdout}, []string{o2.stdout}, o1.rc, o2.rc,
+					map[string]interface{}{"op": "reformat-fasta-model", "names": names, "seqs": seqs})
+				stats["reformat-fasta-model"]++
+			}
 		case kind < 9: // reformat chain back to the starting format
 			start := formats[r.Intn(len(formats))]
 			cur := filepath.Join(dir, "f0")
